@@ -61,6 +61,26 @@ class SymLit(object):
     def __neg__(self):
         return SymLit(self.e, -self.z, self.reg)
 
+    def __pos__(self):
+        return self
+
+    def _floordiv(self, a, b):
+        # Python's // rounds towards minus infinity; z3's integer division is Euclidean (floor for a positive divisor)
+        zb = b if not isinstance(b, int) else z3.IntVal(b)
+        if self.e.branch(zb == 0):
+            raise ZeroDivisionError("integer division or modulo by zero")
+        za = a if not isinstance(a, int) else z3.IntVal(a)
+        return SymLit(self.e, z3.If(zb > 0, za / zb, (-za) / (-zb)), self.reg)
+
+    def __floordiv__(self, o):
+        return self._floordiv(self.z, self._o(o))
+
+    def __rfloordiv__(self, o):
+        return self._floordiv(self._o(o), self.z)
+
+    def __truediv__(self, o):
+        raise Unsupported("true division of enumerator literals (a float)")
+
     def __bool__(self):
         return self.e.branch(self.z != 0)
 
@@ -129,6 +149,12 @@ def member_forms(nprev, depth):
             forms.append(["E0", "*", "E1"])
         forms.append(["L", "+", "L"])
         forms.append(["(", "L", ")"])
+        # expressions of literals only (a value Shroud may fold by itself)
+        forms.append(["L", "-", "L"])
+        forms.append(["L", "*", "L"])
+        forms.append(["L", "/", "L"])
+        forms.append(["-", "L", "/", "L"])
+        forms.append(["(", "L", "-", "L", ")", "/", "L"])
     if depth >= 2:
         for i in range(nprev):
             forms.append(["L", "*", "(", "E%d" % i, "-", "L", ")"])
@@ -374,7 +400,9 @@ class EnumHarness(object):
 
         lib, ns, cls = fresh_library()
         parent = {"lib": lib, "ns": ns, "class": cls}[self.scope]
+        import shroud.todict as TD
         A.int = sym_int
+        TD.int = sym_int          # (value expressions may also be read where they are printed / evaluated)
         try:
             decoy = add_decoy(parent)
             node = parent.add_enum(self.text)
@@ -391,6 +419,7 @@ class EnumHarness(object):
             wf.wrap_enum(cls if self.scope == "class" else None, node, fi)
         finally:
             del A.int
+            del TD.int
         return node, list(wc.enum_impl), list(fi.enum_impl)
 
     def witness(self, m, what):
